@@ -29,13 +29,18 @@ import (
 type scenario struct {
 	Cap     int      `json:"cap"`
 	Roles   []string `json:"roles"`
-	Bound   int      `json:"bound"` // -1 unbounded
+	Bound   int      `json:"bound"`            // -1 unbounded
+	Script  bool     `json:"script,omitempty"` // roles written as an origami script using spawn + Channel methods
 	Choices []int    `json:"choices,omitempty"`
 	Sites   []string `json:"sites,omitempty"`
 }
 
 func (s scenario) String() string {
-	return fmt.Sprintf("cap=%d %s pb=%d", s.Cap, strings.Join(s.Roles, "+"), s.Bound)
+	l := ""
+	if s.Script {
+		l = "script:"
+	}
+	return fmt.Sprintf("%scap=%d %s pb=%d", l, s.Cap, strings.Join(s.Roles, "+"), s.Bound)
 }
 
 type sendRec struct {
@@ -49,6 +54,10 @@ type recvRec struct {
 	stamp int
 }
 type state struct {
+	drain      func() // script layer: fills left / closedEnd through the script's own drain closure
+	left       []int
+	closedEnd  bool
+	finished   bool
 	ch         *channel.Channel
 	sends      []sendRec
 	recvs      []recvRec
@@ -57,7 +66,36 @@ type state struct {
 	obs        []string
 }
 
-func (st *state) closedAtEnd() bool { return st.ch.IsClosed() }
+func (st *state) closedAtEnd() bool { st.finish(); return st.closedEnd }
+
+// finish drains what is left in the channel after all threads are done (hooks are off then).
+func (st *state) finish() {
+	if st.finished {
+		return
+	}
+	st.finished = true
+	if st.drain != nil {
+		st.drain()
+		return
+	}
+	st.closedEnd = st.ch.IsClosed()
+	if st.closedEnd {
+		for {
+			v, ok := st.ch.Receive()
+			if !ok {
+				break
+			}
+			iv, _ := v.(*data.IntValue).AsInt()
+			st.left = append(st.left, iv)
+		}
+	} else {
+		for st.ch.Len() > 0 {
+			v, _ := st.ch.Receive()
+			iv, _ := v.(*data.IntValue).AsInt()
+			st.left = append(st.left, iv)
+		}
+	}
+}
 
 func build(sc scenario) (func() []sched.Body, func() *state) {
 	var st *state
@@ -176,25 +214,8 @@ func check(sc scenario, x *sched.Exec, st *state) []failure {
 	if len(fs) > 0 {
 		return fs // delivery accounting is meaningless after a crash
 	}
-	// drain what is left (hooks are off: cur == nil)
-	var left []int
-	closed := st.ch.IsClosed()
-	if closed {
-		for {
-			v, ok := st.ch.Receive()
-			if !ok {
-				break
-			}
-			iv, _ := v.(*data.IntValue).AsInt()
-			left = append(left, iv)
-		}
-	} else {
-		for st.ch.Len() > 0 {
-			v, _ := st.ch.Receive()
-			iv, _ := v.(*data.IntValue).AsInt()
-			left = append(left, iv)
-		}
-	}
+	st.finish()
+	left := st.left
 	sent := map[int]int{}
 	for _, s := range st.sends {
 		if s.ok {
@@ -220,9 +241,34 @@ func check(sc scenario, x *sched.Exec, st *state) []failure {
 			add("nothing-invented", "invented", fmt.Sprintf("value %d received %d times but no send of it reported success", v, n))
 		}
 	}
-	// per-sender order: receive records are appended in dequeue order
+	// Position of every receive = index of the scheduler step that performed it (the k-th record of a
+	// consumer belongs to the k-th receive step of its thread; a rendez-vous is recorded on the
+	// sender's step with the receiver as partner). Record order alone is not dequeue order: a
+	// consumer may be scheduled out between its receive and its log line.
+	off := 0
+	if sc.Script {
+		off = 1 // thread 0 is the script's main flow; role i runs as spawned thread i+1
+	}
+	steps := map[int][]int{}
+	for i, e := range x.Events {
+		if e.Kind == vshim.KChanRecv {
+			steps[e.Thread] = append(steps[e.Thread], i)
+		} else if e.Kind == vshim.KChanSend && e.Joint >= 0 {
+			steps[e.Joint] = append(steps[e.Joint], i)
+		}
+	}
+	nth := map[int]int{}
+	for i := range st.recvs {
+		r := &st.recvs[i]
+		tid := r.cons + off
+		if k := nth[tid]; k < len(steps[tid]) {
+			r.stamp = steps[tid][k]
+		}
+		nth[tid]++
+	}
 	lastOf := map[int]int{}
 	seq := append([]recvRec{}, st.recvs...)
+	sort.SliceStable(seq, func(a, b int) bool { return seq[a].stamp < seq[b].stamp })
 	for _, v := range left {
 		seq = append(seq, recvRec{-1, v, 1 << 30})
 	}
@@ -246,7 +292,7 @@ func check(sc scenario, x *sched.Exec, st *state) []failure {
 	}
 	for _, r := range st.recvs {
 		if r.val < 0 {
-			if firstCloseStep < 0 || firstCloseStep >= r.stamp {
+			if firstCloseStep < 0 || firstCloseStep > r.stamp {
 				add("null-only-after-close", "null-before-close", fmt.Sprintf("consumer %d got null at step %d, close step %d", r.cons, r.stamp, firstCloseStep))
 			}
 		}
@@ -272,6 +318,16 @@ func check(sc scenario, x *sched.Exec, st *state) []failure {
 		}
 	}
 	return fs
+}
+
+func runnerClass(msg string) string {
+	if i := strings.Index(msg, "\n"); i >= 0 {
+		msg = msg[:i]
+	}
+	if len(msg) > 60 {
+		msg = msg[:60]
+	}
+	return strings.ReplaceAll(msg, " ", "-")
 }
 
 func stripLine(site string) string { return sched.SiteStable(site) }
@@ -322,6 +378,11 @@ func explore(w *pool.W, arg json.RawMessage) {
 		return
 	}
 	setup, get := build(sc)
+	var getScript func() *scriptState
+	if sc.Script {
+		setup, getScript = buildScript(sc)
+		get = func() *state { return getScript().state }
+	}
 	outcomes := map[string]int{}
 	seen := map[string]bool{}
 	var deadline time.Time
@@ -331,8 +392,18 @@ func explore(w *pool.W, arg json.RawMessage) {
 	cfg := &sched.Config{Name: sc.String(), Bound: sc.Bound, Setup: setup, Deadline: deadline}
 	cfg.Check = func(x *sched.Exec) {
 		st := get()
+		fails := check(sc, x, st)
+		if sc.Script {
+			ss := getScript()
+			if ss.setupErr != "" {
+				fails = append(fails, failure{"harness", "script-setup", ss.setupErr})
+			}
+			for _, u := range ss.uncaught {
+				fails = append(fails, failure{"no-crash", "script-error:" + runnerClass(u), "uncaught in script: " + u})
+			}
+		}
 		outcomes[outcomeOf(st, x)]++
-		for _, f := range check(sc, x, st) {
+		for _, f := range fails {
 			k := f.key
 			if f.clause == "no-crash" || f.clause == "exactly-once" || f.clause == "sender-order" || f.clause == "nothing-invented" {
 				k += " [" + shape(sc, x) + "]"
@@ -399,6 +470,16 @@ func scenarios(quick bool) []scenario {
 	add(pb4, "P2", "C2", "C2", "X")
 	add(pb4, "P1", "C2", "X", "X")
 	add(pb5, "P1", "P1", "C1", "C1", "X")
+	// script layer: the same roles through spawn + the script-facing Channel methods
+	spb := 2
+	if !quick {
+		spb = 3
+	}
+	for _, roles := range [][]string{{"P1", "C1"}, {"P2", "C3", "X"}, {"P2", "X"}, {"X", "X"}, {"P1", "O", "X"}, {"P1", "P1", "C3", "X"}} {
+		for _, c := range caps {
+			out = append(out, scenario{Cap: c, Roles: roles, Bound: spb, Script: true})
+		}
+	}
 	if !quick {
 		add(1, "P2", "P2", "C3", "C3", "X")
 		add(0, "P2", "P2", "P2", "C3", "C3", "C3", "X")
